@@ -98,9 +98,31 @@ fn main() {
                 prop: prop.clone(), tier, seed, workers, evaluations,
                 wall_cap: std::time::Duration::from_secs(wall),
                 cpu_budget: if tier == Tier::Quick { 20 } else { 120 },
-                write_evidence: true, quiet: false,
+                write_evidence: true, quiet: false, flavour: String::new(),
             };
-            let r = coord::run_check(&cfg);
+            let mut r = coord::run_check(&cfg);
+            // second pass: the same episodes' first fifth under the debug-assertions flavour
+            if std::env::var("ABYSIM_NO_DBG").is_err() && r.exit != 2 {
+                if coord::dbg_exe().is_some() {
+                    let cfg2 = coord::CheckCfg { evaluations: (evaluations / 10).max(1), wall_cap: std::time::Duration::from_secs(wall / 2 + 5), flavour: "dbg".into(), ..cfg };
+                    let r2 = coord::run_check(&cfg2);
+                    let c2 = r2.evidence["coverage"].clone();
+                    r.evidence["coverage"]["debug_assertions_flavour"] = serde_json::json!({
+                        "what": "the same episode families (first tenth of the indices) executed by a build of crate + harness with debug assertions and overflow checks enabled",
+                        "evaluations": c2["evaluations"], "episodes_executed": c2["episodes_executed"], "api_calls": c2["api_calls"],
+                        "inconclusive_runs": c2["inconclusive_runs"], "violation_signatures": c2["violation_signatures"], "distinct_nontrivial": c2["distinct_nontrivial"],
+                    });
+                    let v = r.evidence["violations"].as_u64().unwrap_or(0) + r2.evidence["violations"].as_u64().unwrap_or(0);
+                    r.evidence["violations"] = serde_json::json!(v);
+                    let w = r.evidence["wall_s"].as_f64().unwrap_or(0.0) + r2.evidence["wall_s"].as_f64().unwrap_or(0.0);
+                    r.evidence["wall_s"] = serde_json::json!(w);
+                    if r2.exit > r.exit || (r2.exit == 1 && r.exit != 1) {
+                        r.exit = if r.exit == 1 || r2.exit == 1 { 1 } else { r2.exit };
+                    }
+                } else {
+                    r.evidence["coverage"]["debug_assertions_flavour"] = serde_json::json!("not built");
+                }
+            }
             coord::write_evidence(&prop, &r.evidence);
             let c = &r.evidence["coverage"];
             println!("evaluations={} episodes={} distinct_nontrivial={} distinct_states={} inconclusive={} api_calls={} wall_s={:.1} exit={}",
